@@ -378,7 +378,18 @@ func loadChunk(l *Lexer, recordLen uint64) error {
 		return fmt.Errorf("failed to read compression length: %w", err)
 	}
 
-	// read compression and records length into buffer
+	// read compression and records length into buffer. The compression string
+	// cannot be longer than what is left of the record.
+	if uint64(compressionLen)+8+8+8+8+4+4 > recordLen {
+		return fmt.Errorf("chunk compression length %d exceeds record length %d", compressionLen, recordLen)
+	}
+	if int(compressionLen)+8 > len(l.buf) {
+		buf, err := makeSafe(uint64(compressionLen) + 8)
+		if err != nil {
+			return fmt.Errorf("failed to allocate buffer for chunk compression string: %w", err)
+		}
+		l.buf = buf
+	}
 	thisReadLength, err := io.ReadFull(l.reader, l.buf[:compressionLen+8])
 	readLength += thisReadLength
 	if errors.Is(err, io.ErrUnexpectedEOF) || errors.Is(err, io.EOF) {
